@@ -15,7 +15,7 @@ import z3
 from pyvc.engine import ClassRef, ExcVal, PyRaise, Rec
 from pyvc.units import Setup, Unit
 
-VAL_KINDS = ["spec", "spec-with-init_args", "spec-refused", "list", "dict", "scalar", "none"]
+VAL_KINDS = ["spec", "spec-with-init_args", "spec-with-init_args-that-is-no-mapping", "spec-refused", "list", "dict", "scalar", "none"]
 
 
 def aca_setup(ctx):
@@ -28,8 +28,12 @@ def aca_setup(ctx):
     init_args.methods["__setitem__"] = lambda c, s_, a, k: (c.event("init_args[]=", a[0], a[1]), members.__setitem__(a[0], a[1]))[0]
     init_args.methods["__bool__"] = lambda c, s_, a, k: True
     ns_store = {"class_path": "pkg.Cls"}
+    ctx.classes.add("Namespace", [])
+    init_args.cls = "Namespace"
     if kind == "spec-with-init_args":
         ns_store["init_args"] = init_args
+    elif kind == "spec-with-init_args-that-is-no-mapping":
+        ns_store["init_args"] = 4  # {"class_path": ..., "init_args": 4}: data that merely looks like a spec
     as_ns = Rec("Namespace(spec)")
     as_ns.methods["get"] = lambda c, s_, a, k: ns_store.get(a[0])
     as_ns.methods["__setitem__"] = lambda c, s_, a, k: (c.event("spec[]=", a[0], a[1]), ns_store.__setitem__(a[0], a[1]))[0]
@@ -48,13 +52,13 @@ def aca_setup(ctx):
 
     def adapt_class_type(c, a, k):
         c.event("adapt_class_type", a[0], a[1], a[2], a[3], dict(members))
-        if kind == "spec-refused":
+        if kind in ("spec-refused", "spec-with-init_args-that-is-no-mapping"):
             raise PyRaise(ExcVal(["ValueError", "TypeError", "ImportError", "KeyError"][c.choose(4, "refusal-class")], args=("no",), origin="adapt_class_type"))
         return ("adapted-spec", a[0])
 
     calls = {"is_subclass_spec": lambda c, a, k: a[0] is orig_spec, "subclass_spec_as_namespace": lambda c, a, k: (c.event("normalise", a[0]), as_ns)[1], "adapt_class_type": adapt_class_type,
              "adapt_classes_any": lambda c, a, k: (c.event("recursive", a[0], a[1], a[2], a[3]), ("adapted", a[0]))[1]}
-    return Setup(env={"val": val, "serialize": serialize, "instantiate_classes": instantiate, "sub_add_kwargs": sak}, calls=calls,
+    return Setup(env={"val": val, "serialize": serialize, "instantiate_classes": instantiate, "sub_add_kwargs": sak}, calls=calls, consts={"Namespace": ClassRef("Namespace")},
                  data=dict(kind=kind, serialize=serialize, instantiate=instantiate, sak=sak, members=members, orig=dict(members), init_args=init_args, as_ns=as_ns, orig_spec=orig_spec, elems=elems, val=val, ns_store=ns_store))
 
 
@@ -76,8 +80,8 @@ def aca_post(ctx, st, result):
                 want = {m: ("adapted", v) for m, v in d["orig"].items()}
                 ctx.oblige("post", "every-init_args-member-is-adapted-first(same settings)-and-stored-back-before-the-class-is-checked" + tag,
                            settings_ok and [e[1] for e in rec] == list(d["orig"].values()) and len(act) == 1 and act[0][5] == want and d["ns_store"].get("init_args") is d["init_args"])
-        if k == "spec-refused":
-            ctx.oblige("post", "a-spec-that-the-class-check-refuses-comes-back-as-the-original-value(Any accepts it as plain data)" + tag, result is d["orig_spec"])
+        if k in ("spec-refused", "spec-with-init_args-that-is-no-mapping"):
+            ctx.oblige("post", "a-spec-that-the-class-check-refuses(also one whose init_args is not a mapping)-comes-back-as-the-original-value(Any accepts it as plain data)" + tag, result is d["orig_spec"] and not rec)
         else:
             ctx.oblige("post", "accepted-spec=>the-result-of-adapt_class_type" + tag, result == ("adapted-spec", d["as_ns"]))
     elif k == "list":
